@@ -84,7 +84,7 @@ func probConfig(r *rand.Rand, counting bool) (n uint64, fp float64, heavy bool) 
 	case x < 45: // typical
 		return pick[uint64](r, 10, 100, 1000, 10_000, 100_000), pick(r, 0.1, 0.05, 0.01, 0.001, 1e-4, 1e-6), false
 	case x < 65: // tiny rates
-		fp = pick(r, 5e-324, 1e-300, 1e-100, 1e-30, 1e-15)
+		fp = pick(r, 5e-324, 1e-300, 1e-100, 1e-30, 1e-15, 1e-15, 1e-12, 1e-12, 1e-9, 1e-9, 1e-9, 1e-9)
 		return pick[uint64](r, 1, 2, 7, 1000, 1_000_000, 2_000_000), fp, fp < 1e-20
 	case x < 83: // rates near one
 		return pick[uint64](r, 1, 2, 3, 10, 1000, 1_000_000, 1_000_000_000, 4_000_000_000), pick(r, 0.5, 0.7, 0.71, 0.75, 0.9, 0.99, 0.999999, 1-1.0/(1<<53)), false
@@ -195,6 +195,11 @@ func startProb(p *ProbPlan, out *Outcome, prop string, build func(pr *probRun, c
 				opt.PipelineMultiplex = p.Multiplex
 			}
 			opt.DisableCache = true
+			// small queues and buffers: the defaults (1024 slots, 0.5 MB buffers per connection) cost more to allocate
+			// than a whole run; arguments of ~1000 indexes still span several writes
+			opt.RingScaleEachConn = 7
+			opt.ReadBufferEachConn = 65536
+			opt.WriteBufferEachConn = 65536
 			cl, err := rueidis.NewClient(opt)
 			if err != nil {
 				setupErr = err
